@@ -119,6 +119,13 @@ func RunPlan(t *testing.T, plan *Plan) (res *Result) {
 		env.Done()
 		res.Counts = env.Counts
 		res.LogSHA = env.LogSHA()
+		if plan.Cfg.Extra["real"] > 0 {
+			// world CR: gRPC's reconnect jitter is seeded from the wall clock at
+			// process start, so the instants of reconnects (and with them e.g.
+			// which entries were in flight at a crash) are not a function of the
+			// plan; only status and signature are compared across processes
+			res.LogSHA = "world-CR:event-log-not-compared"
+		}
 		if d := os.Getenv("ZSIM_LOGDIR"); d != "" {
 			os.WriteFile(filepath.Join(d, fmt.Sprintf("%s-%d.log", plan.Prop, plan.Seed)), []byte(strings.Join(env.LogLines(), "\n")+"\n"), 0644)
 		}
